@@ -9,8 +9,10 @@ The full statement is `C04_statement`.  It is FALSE of the code (and of the mode
 replays the code): `plateau_counterexample` (K1a), `heavy_left_counterexample` (K1b) and
 `all_left_counterexample` (K1c, found while building this check) are machine-checked
 witnesses on the exact integer instance, so they are defects of the search's stopping
-rules, not of floating point.  K2 (rounded `f32` distances) needs `f32` arithmetic and is
-exhibited by the differential run only (corpus `k2_rounding.case`).
+rules, not of floating point.  K2 (rounded `f32` distances hide a nearer point) and K2b
+(the exit test `max <= split_target + nearest_distance` decided by rounding) need `f32`
+arithmetic and are exhibited by the differential run only (corpus `k2_rounding.case`,
+`k2b_nopoint_rounding.case`).
 
 What is proved: see the individual theorems; names ending in `_partial` cover only part of
 the statement and say which.
